@@ -26,6 +26,7 @@ struct cfg {
   int lose_first; /* the network loses the first k datagrams the client sends (copies of its first handshake flight) */
   int maxretx;    /* >0: MAX_RETRANSMIT of the client session (also the number of handshake retransmissions libcoap makes) */
   int sni_case;   /* SV_SNI only: which name / key the second client uses (see sni_cases) */
+  int refused_first; /* SV_SNI: before the client under test, a client from the same address and port is refused for its name */
   int blk;        /* the client context does block-wise transfers for the application (COAP_BLOCK_USE_LIBCOAP) and the last queued
                    * Confirmable is an Observe registration: libcoap keeps its own copy of such a request besides the queued one */
   int bound;
@@ -374,6 +375,54 @@ step(void) {
   return 1;
 }
 
+/* a complete client life before the one under test: context, one DTLS session with the given name and key, one request, fault
+ * free delivery until quiet, release */
+static void
+prephase_client(const coap_address_t *from, const char *sni, coap_bin_const_t key, int expect_ok) {
+  coap_context_t *pc = coap_new_context(NULL);
+  ns_register_ctx(pc);
+  coap_dtls_cpsk_t pp;
+  memset(&pp, 0, sizeof pp);
+  pp.version = COAP_DTLS_CPSK_SETUP_VERSION;
+  pp.client_sni = (char *)(uintptr_t)sni;
+  pp.psk_info.identity.s = (const uint8_t *)"id1";
+  pp.psk_info.identity.length = 3;
+  pp.psk_info.key = key;
+  coap_session_t *ps = coap_new_client_session_psk2(pc, from, &srv_addr, COAP_PROTO_DTLS, &pp);
+  prephase = 1;
+  prephase_calls = 0;
+  if (ps) {
+    coap_pdu_t *p = coap_new_pdu(COAP_MESSAGE_CON, COAP_REQUEST_CODE_GET, ps);
+    uint8_t t = 0x70;
+    coap_add_token(p, 1, &t);
+    coap_add_option(p, COAP_OPTION_URI_PATH, 11, (const uint8_t *)"s3cr3t-path");
+    coap_send(ps, p);
+    for (int i = 0; i < 200; i++) {
+      ns_prepare_all();
+      if (!ns_inflight_count())
+        break;
+      ns_deliver(0);
+    }
+    coap_session_release(ps);
+  }
+  for (int i = 0; i < 50 && ns_inflight_count(); i++) {
+    ns_deliver(0);
+    ns_prepare_all();
+  }
+  ns_unregister_ctx(pc);
+  coap_free_context(pc);
+  while (ns_inflight_count())
+    ns_deliver(0);
+  ns_prepare_all();
+  while (ns_inflight_count())
+    ns_drop(0);
+  prephase = 0;
+  if (expect_ok && !prephase_calls)
+    vx_fail("harness:sni-first-client", "the first client (%s with its key) did not complete its handshake", sni);
+  if (!expect_ok && prephase_calls)
+    vx_fail("handler-without-auth:server:refused-name", "a client whose server name the server refuses reached the request handler");
+}
+
 static void
 run(void *arg) {
   C = arg;
@@ -416,48 +465,13 @@ run(void *arg) {
   coap_add_resource(sc, r);
   if (C->sv == SV_SNI) {
     /* first client: gw.example.net with its key, fault free, to completion */
-    coap_context_t *pc = coap_new_context(NULL);
-    ns_register_ctx(pc);
-    coap_dtls_cpsk_t pp;
-    memset(&pp, 0, sizeof pp);
-    pp.version = COAP_DTLS_CPSK_SETUP_VERSION;
-    pp.client_sni = "gw.example.net";
-    pp.psk_info.identity.s = (const uint8_t *)"id1";
-    pp.psk_info.identity.length = 3;
-    pp.psk_info.key = k2c;
     coap_address_t pa;
     ns_addr(&pa, 51, 40003);
-    coap_session_t *ps = coap_new_client_session_psk2(pc, &pa, &srv_addr, COAP_PROTO_DTLS, &pp);
-    prephase = 1;
-    prephase_calls = 0;
-    if (ps) {
-      coap_pdu_t *p = coap_new_pdu(COAP_MESSAGE_CON, COAP_REQUEST_CODE_GET, ps);
-      uint8_t t = 0x70;
-      coap_add_token(p, 1, &t);
-      coap_add_option(p, COAP_OPTION_URI_PATH, 11, (const uint8_t *)"s3cr3t-path");
-      coap_send(ps, p);
-      for (int i = 0; i < 200; i++) {
-        ns_prepare_all();
-        if (!ns_inflight_count())
-          break;
-        ns_deliver(0);
-      }
-      coap_session_release(ps);
-    }
-    for (int i = 0; i < 50 && ns_inflight_count(); i++) {
-      ns_deliver(0);
-      ns_prepare_all();
-    }
-    ns_unregister_ctx(pc);
-    coap_free_context(pc);
-    while (ns_inflight_count())
-      ns_deliver(0);
-    ns_prepare_all();
-    while (ns_inflight_count())
-      ns_drop(0);
-    prephase = 0;
-    if (!prephase_calls)
-      vx_fail("harness:sni-first-client", "the first client (gw.example.net with its key) did not complete its handshake");
+    prephase_client(&pa, "gw.example.net", k2c, 1);
+    if (C->refused_first)
+      /* ... and then a client from the very address and port the client under test will use, with a name the server refuses:
+       * what that attempt leaves behind at the server must not stand in the way of the next one */
+      prephase_client(&cli_addr, "unknown.example", k2c, 0);
     ev_connected_c = ev_connected_s = ev_closed = ev_error = 0;
     established_seen_c = 0;
   }
@@ -628,8 +642,8 @@ static int ncfgs;
 static void
 add(struct cfg c) {
   cfgs = realloc(cfgs, sizeof *cfgs * (size_t)(ncfgs + 1));
-  snprintf(c.name, sizeof c.name, "c19:sv=%d,cl=%s,ncon=%d,non=%d,inj=%d@%d,rel=%d,sni=%d/%d,nh=%d,mr=%d,lf=%d,tls=%d,blk=%d,fd=%d,B=%d", c.sv, cl_names[c.cl], c.ncon, c.with_non, c.inject,
-           c.inject_at, c.release_at, c.sni, c.sni_case, c.nohint, c.maxretx, c.lose_first, c.tls, c.blk, c.free_drops, c.bound);
+  snprintf(c.name, sizeof c.name, "c19:sv=%d,cl=%s,ncon=%d,non=%d,inj=%d@%d,rel=%d,sni=%d/%d,nh=%d,mr=%d,lf=%d,tls=%d,blk=%d,rf=%d,fd=%d,B=%d", c.sv, cl_names[c.cl], c.ncon, c.with_non, c.inject,
+           c.inject_at, c.release_at, c.sni, c.sni_case, c.nohint, c.maxretx, c.lose_first, c.tls, c.blk, c.refused_first, c.free_drops, c.bound);
   cfgs[ncfgs++] = c;
 }
 
@@ -688,6 +702,11 @@ main(int argc, char **argv) {
     struct cfg c = {.sv = SV_SNI, .cl = CL_MATCH, .ncon = 1, .release_at = -1, .sni_case = k, .bound = T ? 2 : 1};
     add(c);
   }
+  /* the same after a refused attempt from the very address and port of the client under test */
+  for (int k = 0; k < N_SNI_CASES; k++) {
+    struct cfg c = {.sv = SV_SNI, .cl = CL_MATCH, .ncon = 2, .release_at = -1, .sni_case = k, .refused_first = 1, .bound = T ? 1 : 0};
+    add(c);
+  }
   /* cleartext injection at every step of the handshake */
   for (int who = 1; who <= 2; who++)
     for (int at = 0; at <= 10; at += (T ? 1 : 2)) {
@@ -718,7 +737,7 @@ main(int argc, char **argv) {
              "table {single key, identity table} x client credentials {match, wrong key, prefix key, longer key, unknown identity, client rejects "
              "hint, second identity} x queued requests {1 CON, 3 CON + 1 NON} x SNI; the product again with a client context in COAP_BLOCK_USE_LIBCOAP mode whose last queued Confirmable is an Observe registration (1 or 2 CON; DTLS, TLS, released mid-handshake); the same product with a server that sends no identity hint; a server choosing the key by SNI callback (two names with own keys, default key without SNI) "
              "after a first client has completed a handshake under one name, x 9 (name, key) combinations of the second client incl. prefix / "
-             "longer / other-case / absent names; all schedules with <= bound drop/duplicate/reorder deviations "
+             "longer / other-case / absent names, also after a refused attempt (unknown name) from the same address and port; all schedules with <= bound drop/duplicate/reorder deviations "
              "over the first 14 datagrams; cleartext CoAP injected from the client's and a third address at each step; application release "
              "mid-handshake; every drop subset of the first 6 (quick) / 10 (thorough) datagrams; non-trivial = deviation taken");
   vx_ev_assumption("PSK only, GnuTLS back-end; TLS over the simulated TCP stream is driven for the credential product without faults (a stream does not lose data), judged after the application released a session whose handshake cannot succeed");
